@@ -94,7 +94,7 @@ func ruleWOpBytes(c *Ctx) {
 			for _, b := range p.Blocks {
 				w.pathBlocks[b] = true
 			}
-			got[seqOf(w.eval(p.Ret.Results[0])).String()] = true
+			got[leOfOwnWidth(seqOf(w.eval(p.Ret.Results[0])).String())] = true
 		}
 		var gs []string
 		for g := range got {
@@ -116,4 +116,34 @@ func ruleWOpBytes(c *Ctx) {
 			fmt.Sprintf("an opcode whose length field is %d is written back as %v, expected %s (Parse reads %s): Unparse does not reproduce the script, so script codes and signature hashes differ", cl.v, gs, cl.want[0], cl.what))
 	}
 	c.MinInstances("W-opb", n, 7)
+}
+
+// leOfOwnWidth: the k low bytes of uintK(x) are the k low bytes of x.
+func leOfOwnWidth(s string) string {
+	for _, k := range []int{1, 2, 4, 8} {
+		pre := fmt.Sprintf("LE%d(uint%d(", k, 8*k)
+		for {
+			i := strings.Index(s, pre)
+			if i < 0 {
+				break
+			}
+			// the matching parenthesis of uintK(
+			depth, j := 0, i+len(pre)
+			for ; j < len(s); j++ {
+				if s[j] == '(' {
+					depth++
+				} else if s[j] == ')' {
+					if depth == 0 {
+						break
+					}
+					depth--
+				}
+			}
+			if j >= len(s) {
+				break
+			}
+			s = s[:i] + fmt.Sprintf("LE%d(", k) + s[i+len(pre):j] + s[j+1:]
+		}
+	}
+	return s
 }
